@@ -49,6 +49,7 @@ func (c13) RunCase(c *core.Ctx) {
 	o.ModChains = c.R.Intn(3) == 0
 	o.Share = c.R.Intn(4) == 0
 	o.MaxFields = 5
+	o.TimeLayouts = true // Time.Format(layout) only concerns strings: a time.Time goes through both modes unchanged
 	switch c.R.Intn(10) {
 	case 0:
 		o.TopKinds = []spec.Kind{spec.Slice}
